@@ -62,8 +62,12 @@ def runSection (g : Nat) (prog : Program) : M String := do
       | .ok v => do pure ("OK " ++ canonVal (← get) canonDepth v)
       | .error e => if e.isFatal then throw e else pure (errText e)
 
+/-- the helper functions d1 … d9 of spec programs (lexical defaults, see the parameter family in c05.go) are not part of
+    the program under test -/
+def isSpecHelper (k : String) : Bool := k.length == 2 && k.startsWith "d" && (k.drop 1).all Char.isDigit
+
 def globalDump (st : St) (g : Nat) : String :=
-  let items := ((st.scopes.getD g default).vars.map fun (k, v) =>
+  let items := (((st.scopes.getD g default).vars.filter fun kv => !(isSpecHelper kv.1)).map fun (k, v) =>
     canonVal st (canonDepth - 1) (.str (strBytes k)) ++ ":" ++ canonVal st (canonDepth - 1) v)
   " ".intercalate (items.toArray.qsort (· < ·)).toList
 
@@ -156,8 +160,10 @@ def runCase (payload : String) : String :=
   match knownDeviation payload with
   | some id =>
     let spec := ((runSections (splitSections false payload)).splitOn "\t").headD ""
-    -- only where the code as it is really differs from what the property demands
-    if (main.splitOn "\t").headD "" == spec then main
+    -- only where the code as it is really differs from what the property demands (the call frames of the spec
+    -- program — it has helper functions — are not part of that question)
+    let sem (t : String) : List String := (t.splitOn ";").filter fun sec => !(sec.startsWith "F ")
+    if sem ((main.splitOn "\t").headD "") == sem spec then main
     else main ++ "\tkf=" ++ id ++ "\tspec=" ++ spec
   | none => main
 
